@@ -1129,8 +1129,15 @@ func (rr *DNSResourceRecord) encode(data []byte, offset int, opts gopacket.Seria
 
 	switch rr.Type {
 	case DNSTypeA:
-		copy(data[noff+10:], rr.IP.To4())
+		ip := rr.IP.To4()
+		if ip == nil {
+			return 0, fmt.Errorf("invalid IPv4 address in A record (length %d)", len(rr.IP))
+		}
+		copy(data[noff+10:], ip)
 	case DNSTypeAAAA:
+		if len(rr.IP) != net.IPv6len {
+			return 0, fmt.Errorf("invalid IPv6 address in AAAA record (length %d)", len(rr.IP))
+		}
 		copy(data[noff+10:], rr.IP)
 	case DNSTypeNS:
 		if _, err = encodeDNSName(rr.NS, rr.rdataMeta(), data, noff+10); err != nil {
